@@ -207,7 +207,7 @@ var envFaults = []string{
 	"gap_1h", "gap_25h", "gap_8d", "gap_40d", "gap_400d", "gap_400d_then_outage", "empty_burst_60", "gaps_repeated_week",
 	"pool_drain_same_block", "pools_nearly_emptied", "dust_everything", "failing_txs_with_fees",
 	"provider_vesting_slots_full", "vesting_slots_zero_then_epochs",
-	"hostile_registry_entries_small", "hostile_registry_entries_large",
+	"hostile_registry_entries_small", "hostile_registry_entries_large", "gap_then_owner_partial_closes", "fast_year_then_owner_partial_closes",
 }
 
 func init() {
@@ -412,6 +412,56 @@ func applyFault(c *run.Ctx, w *chain.World, g freeGen, name string, edges map[st
 		}
 		g.Free(25, g.StdDt)
 		g.Free(3, func(i int) int64 { return []int64{90000, 5, 5}[i] })
+	case name == "gap_then_owner_partial_closes", name == "fast_year_then_owner_partial_closes":
+		// positions left alone for more than a year - or a year of one block by governance - so that
+		// interest and funding use their custody up; then their owners close a part of each before any
+		// bot looks at them
+		gg := g.(*gen.Gen)
+		w.Silent = map[string]bool{}
+		if name == "gap_then_owner_partial_closes" {
+			w.Step(500 * 86400)
+		} else {
+			w.GovExec(name, &parametertypes.MsgUpdateTotalBlocksPerYear{Creator: w.Gov, TotalBlocksPerYear: 1})
+			w.Step(5)
+		}
+		for round := 0; round < 2 && !w.Dead; round++ {
+			ctx := w.ReadCtx()
+			txs := []*chain.TxRecord{}
+			seen := map[string]bool{}
+			for _, m := range w.App.PerpetualKeeper.GetAllMTPs(ctx) {
+				o := w.ActorByAddr(m.Address)
+				if o == nil || seen[m.Address] {
+					continue
+				}
+				seen[m.Address] = true
+				am := m.Custody
+				if m.Position == perptypes.Position_SHORT {
+					am = m.Liabilities
+				}
+				am = am.QuoRaw(int64(2 + round))
+				if am.IsPositive() {
+					txs = append(txs, w.Tx(o, &perptypes.MsgClose{Creator: o.S(), Id: m.Id, Amount: am}))
+				}
+			}
+			seenL := map[string]bool{}
+			for _, p := range w.App.LeveragelpKeeper.GetAllPositions(ctx) {
+				o := w.ActorByAddr(p.Address)
+				if o == nil || seenL[p.Address] || seen[p.Address] {
+					continue
+				}
+				seenL[p.Address] = true
+				txs = append(txs, w.Tx(o, &lptypes.MsgClose{Creator: o.S(), Id: p.Id, LpAmount: p.LeveragedLpAmount.QuoRaw(int64(2 + round))}))
+			}
+			if len(txs) > 0 {
+				w.Step(5, txs...)
+				c.Ev("owner_partial_closes_after_long_gap")
+			}
+		}
+		_ = gg
+		g.Free(8, nil)
+		if name == "fast_year_then_owner_partial_closes" {
+			w.GovExec(name+"/restore", &parametertypes.MsgUpdateTotalBlocksPerYear{Creator: w.Gov, TotalBlocksPerYear: 6307200})
+		}
 	case name == "failing_txs_with_fees":
 		// transactions that fail in the message while paying fees in every denom
 		for i := 0; i < 6 && !w.Dead; i++ {
